@@ -289,6 +289,10 @@ def extra_stage(tier, seed, workdir):
 
 
 def run_case(ctx, idx):
+    if idx % 3 == 0:
+        with common.warnings_are_errors(ctx):
+            judge(ctx, idx, make_case(ctx, idx))
+        return
     judge(ctx, idx, make_case(ctx, idx))
 
 
